@@ -166,5 +166,5 @@ def tfmodisco_strategy(draw):
 
 
 def subchecks(tier):
-    return [Sub("recursive_seqlets", recursive_case, strategy=recursive_strategy, n_quick=1200, n_thorough=20000, shards_quick=4),
-            Sub("tfmodisco_seqlets", tfmodisco_case, strategy=tfmodisco_strategy, n_quick=400, n_thorough=6000, shards_quick=2)]
+    return [Sub("recursive_seqlets", recursive_case, strategy=recursive_strategy, n_quick=1200, n_thorough=60000, shards_quick=4),
+            Sub("tfmodisco_seqlets", tfmodisco_case, strategy=tfmodisco_strategy, n_quick=400, n_thorough=18000, shards_quick=2)]
